@@ -99,6 +99,7 @@ Definition T_QUAD := 32768%Z.
 Definition T_INF := 65536%Z.  (* delta kernel: PDF = +Inf *)
 Definition T_EMPTY := 131072%Z.
 Definition T_BWRULE := 262144%Z. (* a bandwidth rule returned a value that was compared *)
+Definition T_BORDER := 524288%Z. (* delta kernel, inexact image arithmetic within rounding of a jump: either side accepted *)
 
 (* ---------- observable classes (first diagnostic integer of a mismatch) ---------- *)
 Definition D_PDF := 1%Z.    Definition D_CDF := 2%Z.     Definition D_HAFTER := 3%Z.
@@ -180,6 +181,47 @@ Definition point_tag (k : kde) (x : Q) (expected_pdf : option xreal) : Z :=
  (Z.lor (if far_images k x then T_IMAGES else 0)
         (match expected_pdf with Some (XInf _) => T_INF | _ => 0 end)))))%Z.
 
+(* ---------- borderline rule (DESIGN 4.5), delta kernel with boundary reflection only ----------
+   The delta kernel's step functions are evaluated at the float values of 2*min - x, x + n*d, ...
+   Without boundaries the only arithmetic is x - x_i, whose sign and zero-ness are exact in
+   IEEE arithmetic: checked strictly.  With boundaries the image points are rounded; when they
+   are NOT exactly representable (inputs not on a common coarse dyadic grid) and an image lies
+   within rounding distance of a data point, the float code may legitimately see the other
+   side of the jump.  Inputs on a common dyadic grid (the bulk of the generated cases: integers,
+   k/1024) are exact and checked strictly. *)
+Definition is_pow2 (p : positive) : bool := match pos_odd_part p 0 with (xH, _) => true | _ => false end.
+(* every value is a multiple of 1/D (D the largest denominator, a power of two) and smaller
+   than 2^42/D in magnitude: all integer combinations with coefficients up to 2^10 are exact *)
+Definition grid_ok (vs : list Q) : bool :=
+  let D := fold_left (fun d v => Pos.max d (Qden (Qred v))) vs 1%positive in
+  forallb (fun v => let r := Qred v in
+                    is_pow2 (Qden r) &&
+                    (Z.abs (Qnum r) * (Zpos D / Zpos (Qden r)) <? 4398046511104)%Z) vs.
+Definition eps_img : Q := 1 # (2 ^ 46)%positive.
+(* the arguments at which the closure y is evaluated for the point x *)
+Definition img_args (b : bconf) (fuel : nat) (x : Q) : list Q :=
+  match b with
+  | BLower m => [x; 2 * m - x]
+  | BUpper M => [x; 2 * M - x]
+  | BBoth m M =>
+      let d := img_d m M in let w := img_w m x in
+      flat_map (fun n => let q := Qofnat n in
+                         [x + q * d; x + q * d - w; x - (q + 1) * d - w; x - (q + 1) * d]) (seq 0 fuel)
+  | _ => [x]
+  end.
+Definition delta_borderline (k : kde) (x : Q) : bool :=
+  match k_kernel k, k_b k with
+  | KDelta, (BLower _ | BUpper _ | BBoth _ _) =>
+      let bvals := match k_b k with BLower m => [m] | BUpper M => [M] | BBoth m M => [m; M] | _ => [] end in
+      let vals := x :: bvals ++ k_xs k in
+      if grid_ok vals then false
+      else
+        let scale := Qmaxabs vals + 1 in
+        existsb (fun t => existsb (fun xi => Qle_bool (Qabs (t - xi)) (eps_img * scale)) (k_xs k))
+                (img_args (k_b k) (k_fuel k) x)
+  | _, _ => false
+  end.
+
 (* ---------- one point: verdict code (0/2), observable class, diagnostics ---------- *)
 Definition xclose (tol : Q) (e o : xreal) : bool := xwithin tol e o.
 
@@ -202,31 +244,35 @@ Definition check_point (k : kde) (panics : bool) (hexp : xreal) (prev : option (
                            | _ => xeq e (p_pdf p)
                            end
                end in
-    if negb okp then (2%Z, D_PDF, xdiag ep, t) else
+    let border := if okp then false else delta_borderline k x in
+    if negb okp && negb border then (2%Z, D_PDF, xdiag ep, t) else
     let okc := match ec with None => true | Some e => xclose tol_cdf e (p_cdf p) end in
-    if negb okc then (2%Z, D_CDF, xdiag ec, t) else
+    let border := border || (if okc then false else delta_borderline k x) in
+    if negb okc && negb border then (2%Z, D_CDF, xdiag ec, t) else
+    let ok0 := if border then 1%Z else 0%Z in
+    let t := if border then Z.lor t T_BORDER else t in
     match k_xs k with
-    | [] => (0%Z, 0%Z, [], t)
+    | [] => (ok0, 0%Z, [], t)
     | _ =>
       if negb (law_pdf (k_kernel k) (k_b k) x (p_pdf p)) then (2%Z, D_LAWPDF, [], t) else
       if negb (law_cdf (k_b k) x (p_cdf p)) then (2%Z, D_LAWCDF, [], t) else
       match prev, p_cdf p with
       | Some (x0, c0), XFin c =>
-          if Qle_bool x0 x && negb (Qle_bool c0 (c + slack)) then (2%Z, D_MONO, qdiag c0, t) else (0%Z, 0%Z, [], t)
-      | _, _ => (0%Z, 0%Z, [], t)
+          if Qle_bool x0 x && negb (Qle_bool c0 (c + slack)) then (2%Z, D_MONO, qdiag c0, t) else (ok0, 0%Z, [], t)
+      | _, _ => (ok0, 0%Z, [], t)
       end
     end.
 
-Fixpoint run_pts (k : kde) (panics : bool) (hexp : xreal) (prev : option (Q * Q)) (pts : list pt) (i tag : Z)
+Fixpoint run_pts (k : kde) (panics : bool) (hexp : xreal) (prev : option (Q * Q)) (pts : list pt) (i code tag : Z)
   : Z * Z * Z * list Z :=
   match pts with
-  | [] => (0%Z, tag, (-1)%Z, [])
+  | [] => (code, tag, (-1)%Z, [])
   | p :: rest =>
       match check_point k panics hexp prev p with
       | (v, cls, diag, t) =>
           if (v =? 2)%Z then (2%Z, t, i, cls :: diag)
           else run_pts k panics hexp
-                 (match p_cdf p with XFin c => Some (p_x p, c) | _ => prev end) rest (i + 1)%Z (Z.lor tag t)
+                 (match p_cdf p with XFin c => Some (p_x p, c) | _ => prev end) rest (i + 1)%Z (Z.max code v) (Z.lor tag t)
       end
   end.
 
@@ -298,7 +344,7 @@ Definition check_C12 (line : list Z) : list Z :=
          else verdict V_MISMATCH T_LAZY (-22) [D_HAFTER])
       else
       (* 3. the points *)
-      match run_pts k panics hexp None (l_pts l) 0%Z 0%Z with
+      match run_pts k panics hexp None (l_pts l) 0%Z 0%Z 0%Z with
       | (code, ptag, pos, diag) =>
         if (code =? 2)%Z then verdict V_MISMATCH (Z.lor (Z.land base 127) ptag) pos diag else
         let tag1 := Z.lor ptag (Z.lor bwtag (if lazy && negb panics then T_LAZY else 0))%Z in
@@ -344,7 +390,7 @@ Definition check_C12 (line : list Z) : list Z :=
         (* 6. arguments untouched *)
         if negb (l_unmod l =? 1)%Z then verdict V_MISMATCH (Z.land base 127) (-2) [D_UNMOD] else
         let tag := Z.lor tag1 (Z.lor (snd bres) qtag) in
-        verdict V_OK (if (tag =? 0)%Z then 0 else Z.lor tag base)%Z (-1) []
+        verdict code (if (tag =? 0)%Z then 0 else Z.lor tag base)%Z (-1) []
       end
       end
     end
